@@ -13,7 +13,7 @@
    Offsets are `usize`; every sum below adds a unit's section offset to an offset that was checked to
    be inside that unit (or is the offset of a parsed DIE), hence is smaller than the section length
    and cannot wrap: the unchecked `+` of UnitOffset::to_unit_section_offset is modelled by N.add.
-   Correspondence streams: c19.closure, c19.sites, c19.tags, c19.big (ocaml/s_c19.ml).
+   Modelled at /repo 8f64179 (filter repaired). Correspondence streams: c19.closure, c19.sites, c19.tags, c19.big (ocaml/s_c19.ml).
    NO proofs in this file. *)
 From Coq Require Import List NArith ZArith Bool.
 Require Import GV.Base.Res.
@@ -243,26 +243,24 @@ Definition has_die_back_edge (tag : N) (decl : bool) : bool :=
 Definition unit_target (u : unitd) (v : N) : list N :=
   if in_bounds u v then [sec u v] else [].
 
-(* add_expression_refs: only the top level of the expression is walked (DW_OP_entry_value bodies
-   are not), and ImplicitPointer / VariableValue fall into `_ => {}` *)
-Definition filter_op_refs (u : unitd) (nest : nat) (op : refop) (v : N) : list N :=
-  match nest with
-  | S _ => []
-  | O =>
-      match op with
-      | OpImplicitPointer | OpVariableValue => []
-      | OpCallRef => [v]
-      | _ => unit_target u v
-      end
+(* add_expression_refs (as repaired by /repo 8f64179): every operation of the expression is looked at,
+   DW_OP_entry_value bodies recursively, so the nesting depth does not matter; unit-relative operands
+   are kept when in bounds (also a zero base type: UnitOffset(0) is never in bounds since the header
+   is not empty), .debug_info operands (call_ref, implicit_pointer, variable_value) always *)
+Definition filter_op_refs (u : unitd) (op : refop) (v : N) : list N :=
+  match op with
+  | OpCallRef | OpImplicitPointer | OpVariableValue => [v]
+  | _ => unit_target u v
   end.
 
+(* add_attribute_refs; add_location_refs walks raw_locations(..): every raw entry that carries an
+   expression, whatever its range *)
 Definition filter_refs (u : unitd) (s : site) : list N :=
   match s_car s with
   | CAttrUnit => unit_target u (s_val s)
   | CAttrInfo => [s_val s]
-  | CExpr nest op => filter_op_refs u nest op (s_val s)
-  | CLoc LocLive nest op => filter_op_refs u nest op (s_val s)   (* self.read_unit.locations(..) *)
-  | CLoc _ _ _ => []
+  | CExpr _ op => filter_op_refs u op (s_val s)
+  | CLoc _ _ op => filter_op_refs u op (s_val s)
   end.
 
 (* ConvertUnit / Expression::from / LocationList::from: which targets are looked up in entry_ids.
@@ -283,21 +281,6 @@ Definition conv_refs (u : unitd) (s : site) : list N :=
   | CLoc _ _ op => conv_op_refs u op (s_val s)
   end.
 
-(* a site the filter looks at the same way the converter does *)
-Definition op_covered (nest : nat) (op : refop) : bool :=
-  match nest, op with
-  | O, OpImplicitPointer | O, OpVariableValue => false
-  | O, _ => true
-  | S _, _ => false
-  end.
-Definition site_covered (s : site) : bool :=
-  match s_car s with
-  | CAttrUnit | CAttrInfo => true
-  | CExpr nest op => op_covered nest op
-  | CLoc LocLive nest op => op_covered nest op
-  | CLoc _ _ _ => false
-  end.
-
 (* struct FilterParent *)
 Record fparent := { fp_depth : Z; fp_off : N; fp_tag : N }.
 
@@ -316,7 +299,7 @@ Definition fu_parent (ps : list fparent) (r : rawent) : list fparent * option fp
    hd_error ps1).
 
 (* the dependency part of FilterUnit::read_entry; `rf` = which targets a site contributes
-   (filter_refs for the code as it is) *)
+   (filter_refs for the code) *)
 Definition fu_deps (rf : unitd -> site -> list N) (dbg : bool) (u : unitd) (e : entry)
            (parent : option fparent) (d : deps) : res deps :=
   let eo := sec u (e_off e) in
